@@ -54,7 +54,7 @@ func runC16(c *eng.Ctx) {
 		applyOp := p.Method(pkgMStor, "MetricStorage", "ApplyOperation")
 		isMut := func(n *eng.GNode) bool {
 			return len(g.CallsAt(n, func(o types.Object, _ *ast.CallExpr) bool {
-				return o != nil && (o == apply || o == sendV0 || o == applyOp || isMetricMutator(o) || o.Name() == "ExpireGroupMetrics")
+				return o != nil && (o == apply || o == sendV0 || o == applyOp || isMetricMutator(o) || nameOf(o) == "ExpireGroupMetrics")
 			})) > 0
 		}
 		var vnode *eng.GNode
@@ -137,7 +137,7 @@ func runC16(c *eng.Ctx) {
 			ok = loopNoEarlyExit(g, loop) && loopBodyMustPass(g, loop, func(n *eng.GNode) bool {
 				return len(g.CallsAt(n, func(o types.Object, call *ast.CallExpr) bool {
 					s, isS := ast.Unparen(call.Fun).(*ast.SelectorExpr)
-					return o != nil && o.Name() == "ExpireGroupMetrics" && isS && eng.SelObj(info, s.X) == elem && len(call.Args) == 1 && eng.SelObj(info, call.Args[0]) == group
+					return o != nil && nameOf(o) == "ExpireGroupMetrics" && isS && eng.SelObj(info, s.X) == elem && len(call.Args) == 1 && eng.SelObj(info, call.Args[0]) == group
 				})) > 0
 			})
 			if ok {
@@ -426,7 +426,7 @@ func runC16(c *eng.Ctx) {
 		hookName := p.Field(pkgMeta, "HookMetadata", "HookName")
 		ok := false
 		var pos token.Pos = f.Decl.Pos()
-		for _, call := range callsIn(info, f.Decl.Body, func(o types.Object, _ *ast.CallExpr) bool { return o != nil && o.Name() == "SendBatch" }) {
+		for _, call := range callsIn(info, f.Decl.Body, func(o types.Object, _ *ast.CallExpr) bool { return o != nil && nameOf(o) == "SendBatch" }) {
 			pos = call.Pos()
 			if len(call.Args) == 2 {
 				if cl, isC := ast.Unparen(call.Args[1]).(*ast.CompositeLit); isC {
@@ -457,12 +457,12 @@ func runC16(c *eng.Ctx) {
 			el := el
 			writesElem := func(n *eng.GNode) bool {
 				return len(g.CallsAt(n, func(o types.Object, call *ast.CallExpr) bool {
-					return o != nil && (o.Name() == "Write" || o.Name() == "WriteString") && len(call.Args) == 1 && usesElem(el, call.Args[0])
+					return o != nil && (nameOf(o) == "Write" || nameOf(o) == "WriteString") && len(call.Args) == 1 && usesElem(el, call.Args[0])
 				})) > 0
 			}
 			writesSep := func(n *eng.GNode) bool {
 				return len(g.CallsAt(n, func(o types.Object, call *ast.CallExpr) bool {
-					if o == nil || (o.Name() != "Write" && o.Name() != "WriteByte" && o.Name() != "WriteString") || len(call.Args) != 1 {
+					if o == nil || (nameOf(o) != "Write" && nameOf(o) != "WriteByte" && nameOf(o) != "WriteString") || len(call.Args) != 1 {
 						return false
 					}
 					return !usesElem(el, call.Args[0])
@@ -632,7 +632,7 @@ func runC16R9(c *eng.Ctx, r *eng.RuleCtx) {
 			return false
 		}
 		o := eng.CalleeOf(vinfo, cl)
-		return o != nil && o.Name() == "Append"
+		return o != nil && nameOf(o) == "Append"
 	}
 	nAppend := 0
 	for _, n := range vg.Nodes {
@@ -792,7 +792,7 @@ func runC16R9Actions(c *eng.Ctx, r *eng.RuleCtx) {
 			return false
 		}
 		o := eng.CalleeOf(vinfo, cl)
-		return o != nil && o.Name() == "Append"
+		return o != nil && nameOf(o) == "Append"
 	}
 	for _, ap := range []struct {
 		key  string
@@ -830,7 +830,7 @@ func runC16R9Actions(c *eng.Ctx, r *eng.RuleCtx) {
 		}
 		isApply := func(n *eng.GNode) bool {
 			return len(g.CallsAt(n, func(o types.Object, _ *ast.CallExpr) bool {
-				return isMetricMutator(o) || (o != nil && o.Name() == "ExpireGroupMetrics")
+				return isMetricMutator(o) || (o != nil && nameOf(o) == "ExpireGroupMetrics")
 			})) > 0
 		}
 		var acts []string
